@@ -207,6 +207,9 @@ func (r *Run) Finish() int {
 
 	if len(r.violations) > 0 && !r.replayMode {
 		dir := filepath.Join(root, "replay", r.ID)
+		if d := os.Getenv("VERIF_EVIDENCE_DIR"); d != "" {
+			dir = filepath.Join(d, "replay", r.ID)
+		}
 		os.MkdirAll(dir, 0o755)
 		for i := range r.violations {
 			v := &r.violations[i]
@@ -287,13 +290,17 @@ func (r *Run) Finish() int {
 			fmt.Fprintf(os.Stderr, "evidence marshal: %v\n", err)
 			return 3
 		}
-		os.MkdirAll(filepath.Join(root, "evidence"), 0o755)
-		tmp := filepath.Join(root, "evidence", r.ID+".json.tmp")
+		evDir := filepath.Join(root, "evidence")
+		if d := os.Getenv("VERIF_EVIDENCE_DIR"); d != "" {
+			evDir = d // used when a check is pointed at a deliberately broken tree: do not touch the real evidence
+		}
+		os.MkdirAll(evDir, 0o755)
+		tmp := filepath.Join(evDir, r.ID+".json.tmp")
 		if err := os.WriteFile(tmp, b, 0o644); err != nil {
 			fmt.Fprintf(os.Stderr, "evidence write: %v\n", err)
 			return 3
 		}
-		os.Rename(tmp, filepath.Join(root, "evidence", r.ID+".json"))
+		os.Rename(tmp, filepath.Join(evDir, r.ID+".json"))
 	}
 	fmt.Printf("%s %s seed=%d: evaluations=%d distinct_nontrivial=%d violations=%d known_findings=%d inconclusive=%d wall=%.1fs\n",
 		r.ID, r.Tier, r.Seed, r.evaluations, nontrivial, len(r.violations), len(r.knownHits), r.counters["inconclusive"], time.Since(r.start).Seconds())
